@@ -68,7 +68,7 @@ CHECKS = {
                 "functions, and is refuted for four recorded defect classes by proved counterexamples. Tied to the real prelude driven "
                 "under Node by scripted frames of the emitted shape (emulation vs reference on every script), to the prelude checks on "
                 "boundary grids, and to compiled table / scenario / rendered-script programs GopherJS plain+minify vs native Go vs model.",
-        "note": "After eight repairs (fix: fc7319c, 4728762+9f57406, efbb250, 3805daf, 3b471dc, 1da8b14, 2de40f9, and C03's 878216e) checks_exact and recover_depth are full strength; defer_refines_noNLE proves emulation = reference for all programs without panic/Goexit statements (arbitrary nesting of calls and deferred calls, all call kinds); single-frame functions with panics/Goexit are covered by defer_refines_partial. Not proved: panics or Goexit crossing frames with pending deferred calls, suspension inside deferred calls (three-way script and program ties only, 0 divergences). 3 known findings (remaining deferreds skipped after a blocking recover; nil-map / index store panics before the right-hand side is evaluated).",
+        "note": "After eight repairs (fix: fc7319c, 4728762+9f57406, efbb250, 3805daf, 3b471dc, 1da8b14, 2de40f9, and C03's 878216e) checks_exact and recover_depth are full strength; defer_refines_noNLE proves emulation = reference for all programs without panic/Goexit statements (arbitrary nesting of calls and deferred calls, all call kinds); single-frame functions with panics/Goexit are covered by defer_refines_partial. Not proved: panics or Goexit crossing frames with pending deferred calls, suspension inside deferred calls (three-way script and program ties only, 0 divergences). 3 known findings (remaining deferreds skipped after a blocking recover; nil-map / index store panics before the right-hand side is evaluated). Regenerated-facts obligation (C08Env): Error.stackTraceLimit extracted from the prelude must be unbounded - the model's depth counter is exact iff it is (depth_observable_iff); ties run every scenario at JS stack depths up to 5000-10000.",
         "technique": "Lean 4 proof (checks = spec for all operands; depth arithmetic; leaf simulation) + differential correspondence (scripted frames on the real prelude, boundary grids, compiled programs vs native Go)",
     },
     "C10": {
@@ -217,7 +217,7 @@ CHECKS = {
                 "canonical-representative and exact-double invariants, mul64 and the 64-bit add/sub/neg. Tied to the real prelude helpers under "
                 "Node (boundary grid x all shift counts) and to compiled table programs (exhaustive for 8-bit types in the thorough tier) "
                 "against the Lean spec and native Go.",
-        "note": 'After the repairs (fix: 2b29449 unary minus, 4ec94fa quotient, 3b2cfda remainder, 07b97d5 >> constant, 22878a7 64-bit constructor) scheme_correct, bitwise_correct, shift_correct (every count), shift64_correct, repr_inv are full strength. Not proved: the quotient/remainder values of $div64 (panic condition, canonical result and termination are); float and complex arithmetic only against native Go (IEEE rounding delegated to the engine). Shift by a negative count is the documented permitted difference. 2 known findings ($divComplex special values / equal-magnitude branch).',
+        "note": 'After the repairs (fix: 2b29449 unary minus, 4ec94fa quotient, 3b2cfda remainder, 07b97d5 >> constant, 22878a7 64-bit constructor) scheme_correct, bitwise_correct, shift_correct (every count), shift64_correct, repr_inv are full strength. Not proved: the quotient/remainder values of $div64 (panic condition, canonical result and termination are); float and complex arithmetic only against native Go (IEEE rounding delegated to the engine). Shift by a negative count is the documented permitted difference. 2 known findings ($divComplex special values / equal-magnitude branch). Regenerated-facts obligation (C06Env): the (operator case, guard, emitted expression) table extracted from expressions.go with go/ast must equal the known table whose entries name the proved schemes (optable_known, mul_patterns, small_const_mul_inexact); a changed or new pattern triggers an exhaustive 8-bit / full-grid search for the affected operators.',
         "technique": "Lean 4 proof (schemes = BitVec spec, unbounded) + three-way differential correspondence (real prelude / compiled programs / native Go)",
     },
     "C15": {
